@@ -268,19 +268,38 @@ func (this *DatasetManager) processSnapshot(data []byte) error {
 		return err
 	}
 
+	snapshotDatasets := make(map[uuid.UUID]struct{})
 	for _, dataset := range dmSnapshot.Datasets {
 		id, err := uuid.FromBytes(dataset.GetId())
 		if err != nil {
 			return err
 		}
-		if _, exists := this.datasets[id]; !exists {
-			this.datasets[id], err = newDataset(id, *dataset, this.raftWalDB, this.raftTransport, this.clusterConn, this)
-			if err != nil {
-				return err
+		snapshotDatasets[id] = struct{}{}
+		if existing, exists := this.datasets[id]; exists {
+			// Replica sets may have changed since this node last applied an entry
+			for i, partition := range existing.partitions {
+				if i < len(dataset.GetPartitions()) {
+					partition.setNodes(dataset.GetPartitions()[i].GetNodeIds())
+				}
 			}
-			for _, partition := range this.datasets[id].partitions {
-				this.allocator.watch(partition)
+			continue
+		}
+		this.datasets[id], err = newDataset(id, *dataset, this.raftWalDB, this.raftTransport, this.clusterConn, this)
+		if err != nil {
+			return err
+		}
+		for _, partition := range this.datasets[id].partitions {
+			this.allocator.watch(partition)
+		}
+	}
+
+	// Datasets deleted before the snapshot was taken
+	for id, dataset := range this.datasets {
+		if _, exists := snapshotDatasets[id]; !exists {
+			for _, partition := range dataset.partitions {
+				this.allocator.unwatch(partition.id)
 			}
+			delete(this.datasets, id)
 		}
 	}
 	return nil
